@@ -28,8 +28,19 @@ TIERS = {"quick": {"runs": 20000, "wall": 55}, "thorough": {"runs": 300000, "wal
 HOSTS = ["10.0.0.1", "192.168.100.200", "fd00::3", "2001:db8::8a2e:370:7334", "fe80::5%eth0", "fe80::1ff:fe23:4567:890a%3"]
 
 
+def _deep(n: int):
+    v: list = []
+    for _ in range(n):
+        v = [v]
+    return v
+
+
 def rnd_json(r: random.Random, depth: int = 0):
     x = r.random()
+    if x < 0.04:
+        # values a strict serialiser may refuse (the call may then fail as a whole) but that must never reach the wire in a
+        # non-canonical form: integers outside 64 bits, a lone surrogate, very deep nesting
+        return r.choice([2**64, 2**64 + 12345, -(2**63) - 1, 10**30, "x\udc80", _deep(300)])
     if depth > 2 or x < 0.5:
         return r.choice([True, False, None, 0, -1, 255, 2**31 - 1, 2**53, 1.5, -0.25, 1e-7, "", "a b", "café", "q\"uote\\", "line\nbreak",
                          "温度", "x" * r.choice([10, 900, 1024, 2100]), "😀"])
